@@ -63,6 +63,8 @@ def run(tier, seed):
         chk.known += [f for f in gv.json.load(open(frag)).get("findings", []) if f.get("property") == PROP and f["id"] not in have]
     proof = gv.proof_status(PROP, REQ_PROPS)
     ncases = 450 if tier == "quick" else 6000
+    if gv.os.environ.get("GV_C09_CASES"):   # self-tests under machine load: a prefix of the same case stream
+        ncases = int(gv.os.environ["GV_C09_CASES"])
     ok, out, binp = gv.cargo_build("c09")
     if not ok:
         chk.violation("build", {"what": "the harness no longer builds against /repo's working tree", "log": out[-3000:],
